@@ -1998,6 +1998,20 @@ class Interp:
             exc = exc.func
         if isinstance(exc, ast.Name):
             name = exc.id
+            if name not in sym.EXC_PARENTS:
+                # a variable holding an exception class / instance
+                try:
+                    val = env.lookup(name)
+                except KeyError:
+                    val = None
+                if isinstance(val, ClassModel):
+                    name = val.name
+                elif isinstance(val, Builtin) and val.name in sym.EXC_PARENTS:
+                    name = val.name
+                elif isinstance(val, ExcValue):
+                    raise val.exc
+                elif val is not None:
+                    raise Unsupported(f'raise of {val!r}', node)
         elif isinstance(exc, ast.Attribute):
             name = exc.attr
         else:
@@ -2119,7 +2133,19 @@ class Interp:
         for t in node.targets:
             if isinstance(t, ast.Subscript):
                 obj = self.eval(t.value, env)
+                if isinstance(t.slice, ast.Slice) and isinstance(obj, list):
+                    lo = self.eval(t.slice.lower, env) if t.slice.lower is not None else None
+                    hi = self.eval(t.slice.upper, env) if t.slice.upper is not None else None
+                    if t.slice.step is not None or isinstance(lo, SV) or isinstance(hi, SV):
+                        raise Unsupported('del of a symbolic slice', node)
+                    del obj[lo:hi]
+                    continue
                 idx = self.eval(t.slice, env)
+                if isinstance(obj, list) and isinstance(idx, int):
+                    if not -len(obj) <= idx < len(obj):
+                        self.raise_exc('IndexError', 'list assignment index out of range', node)
+                    del obj[idx]
+                    continue
                 if isinstance(obj, dict) and not isinstance(idx, SV):
                     if idx not in obj:
                         self.raise_exc('KeyError', repr(idx), node)
